@@ -9,6 +9,8 @@ import (
 	_ "verifengine/props/c01"
 	_ "verifengine/props/c04"
 	_ "verifengine/props/c13"
+	_ "verifengine/props/c14"
+	_ "verifengine/props/c19"
 )
 
 func main() { vf.Main() }
